@@ -166,11 +166,16 @@ impl JobManager {
 
     /// Waits for all managed jobs to complete.
     pub async fn wait_all(&mut self) -> Result<Vec<Job>, error::Error> {
+        // A job that ended in failure must not keep us from waiting for the others.
+        let mut first_error = None;
         for job in &mut self.jobs {
-            job.wait().await?;
+            if let Err(err) = job.wait().await {
+                first_error.get_or_insert(err);
+            }
         }
 
-        Ok(self.sweep_completed_jobs())
+        let completed_jobs = self.sweep_completed_jobs();
+        first_error.map_or(Ok(completed_jobs), Err)
     }
 
     /// Polls all managed jobs for completion.
@@ -373,22 +378,28 @@ impl Job {
     pub async fn wait(&mut self) -> Result<ExecutionResult, error::Error> {
         let mut result = ExecutionResult::success();
 
+        let mut first_error = None;
         while let Some(task) = self.tasks.back_mut() {
-            match task.wait().await? {
-                JobTaskWaitResult::Completed(execution_result) => {
+            match task.wait().await {
+                Ok(JobTaskWaitResult::Completed(execution_result)) => {
                     result = execution_result;
                     self.tasks.pop_back();
                 }
-                JobTaskWaitResult::Stopped => {
+                Ok(JobTaskWaitResult::Stopped) => {
                     self.state = JobState::Stopped;
                     return Ok(ExecutionResult::stopped());
+                }
+                Err(err) => {
+                    // The task is over (it failed); it must never be waited for again.
+                    self.tasks.pop_back();
+                    first_error.get_or_insert(err);
                 }
             }
         }
 
         self.state = JobState::Done;
 
-        Ok(result)
+        first_error.map_or(Ok(result), Err)
     }
 
     /// Moves the job to execute in the background.
